@@ -128,8 +128,8 @@ def fires (src : Src) (evs : List Event) : List Step := evs.map (Step.fire src)
 def symSteps (hasDesc : Bool) (l : List Sym) : List Step :=
   l.map (fun s => match s with | .ev e => Step.fire (.ctx hasDesc) e | .user => Step.user)
 
-def onWsgi (c : Cfg) (evs : List Event) : List Step :=
-  match c.transport with | .wsgi => fires .transport evs | .serverBase => []
+def onWsgi (t : Transport) (evs : List Event) : List Step :=
+  match t with | .wsgi => fires .transport evs | .serverBase => []
 
 /-- which way process_request goes: `co`/`ro` = what firing method_call / method_return_object
     raises (none = no listener raises) -/
@@ -147,52 +147,56 @@ def ProcCase.faulted : ProcCase → Bool
   | _ => true
 
 /-- ctx.close(), then wsgi_close (WsgiApplication.__finalize) -/
-def closeSteps (F : Facts14) (c : Cfg) : List Step :=
-  fires (.ctx false) F.ctxClose ++ onWsgi c [.wsgiClose]
+def closeSteps (F : Facts14) (t : Transport) : List Step :=
+  fires (.ctx false) F.ctxClose ++ onWsgi t [.wsgiClose]
 
 /-- the fault response: get_out_string (serialize the fault, finalize_context), wsgi_exception, close.
     (ServerBase: the transport calls get_out_string and close; WSGI: handle_error.) -/
-def errTail (F : Facts14) (c : Cfg) (hasDesc : Bool) : List Step :=
-  fires .outProt ([.beforeSerialize] ++ (if F.afterSerOnFault c.outp then [.afterSerialize] else []))
-    ++ fires (.ctx hasDesc) F.finErr ++ onWsgi c [.wsgiException] ++ closeSteps F c
+def errTail (F : Facts14) (afterSer : Bool) (t : Transport) (hasDesc : Bool) : List Step :=
+  fires .outProt ([.beforeSerialize] ++ (if afterSer then [.afterSerialize] else []))
+    ++ fires (.ctx hasDesc) F.finErr ++ onWsgi t [.wsgiException] ++ closeSteps F t
 
 /-- MethodContext(...), then wsgi_call -/
-def startSteps (F : Facts14) (c : Cfg) : List Step :=
-  fires (.ctx false) F.ctxInit ++ onWsgi c [.wsgiCall]
+def startSteps (F : Facts14) (t : Transport) : List Step :=
+  fires (.ctx false) F.ctxInit ++ onWsgi t [.wsgiCall]
 
-/-- the whole call -/
-def run (F : Facts14) (c : Cfg) (inj : Inj) (co ro : Option ExcKind) : Run :=
-  let start := startSteps F c
+/-- the whole call; `afterSer` = the output protocol fires after_serialize for a fault -/
+def runCore (F : Facts14) (afterSer : Bool) (t : Transport) (inj : Inj) (co ro : Option ExcKind) : Run :=
+  let start := startSteps F t
   match inj.stage with
   | .createInDoc | .decompose | .genContexts =>
     -- ServerBase.generate_contexts: no descriptor yet
     match (match inj.kind with | .fault => some F.genCtxFault | .exc => F.genCtxExc) with
     | none => ⟨start, true⟩
-    | some evs => ⟨start ++ fires (.ctx false) evs ++ errTail F c false, false⟩
+    | some evs => ⟨start ++ fires (.ctx false) evs ++ errTail F afterSer t false, false⟩
   | .deserialize =>
     -- ServerBase.get_in_object
     let pe := if inj.inner then fires .inProt [.beforeDeserialize] else []
     match (match inj.kind with | .fault => some F.getInFault | .exc => F.getInExc) with
     | none => ⟨start ++ pe, true⟩
-    | some evs => ⟨start ++ pe ++ fires (.ctx true) evs ++ errTail F c true, false⟩
+    | some evs => ⟨start ++ pe ++ fires (.ctx true) evs ++ errTail F afterSer t true, false⟩
   | .none | .user | .serialize =>
     let deser := fires .inProt [.beforeDeserialize, .afterDeserialize]
     let pc := procCase inj co ro
     let proc := symSteps true (F.proc pc)
     if pc.faulted then
       -- get_out_object leaves ctx.out_error set
-      ⟨start ++ deser ++ proc ++ errTail F c true, false⟩
+      ⟨start ++ deser ++ proc ++ errTail F afterSer t true, false⟩
     else if inj.stage = .serialize then
       let pe := if inj.inner then fires .outProt [.beforeSerialize] else []
-      match c.transport with
+      match t with
       | .serverBase => ⟨start ++ deser ++ proc ++ pe, true⟩   -- get_out_string raises to the caller
       | .wsgi =>
         match F.wsgiSerFail with
         | none => ⟨start ++ deser ++ proc ++ pe, true⟩
-        | some evs => ⟨start ++ deser ++ proc ++ pe ++ fires (.ctx true) evs ++ errTail F c true, false⟩
+        | some evs => ⟨start ++ deser ++ proc ++ pe ++ fires (.ctx true) evs ++ errTail F afterSer t true, false⟩
     else
       ⟨start ++ deser ++ proc ++ fires .outProt [.beforeSerialize, .afterSerialize]
-        ++ fires (.ctx true) F.finOk ++ onWsgi c [.wsgiReturn] ++ closeSteps F c, false⟩
+        ++ fires (.ctx true) F.finOk ++ onWsgi t [.wsgiReturn] ++ closeSteps F t, false⟩
+
+/-- the whole call for an output protocol and a transport -/
+def run (F : Facts14) (c : Cfg) (inj : Inj) (co ro : Option ExcKind) : Run :=
+  runCore F (F.afterSerOnFault c.outp) c.transport inj co ro
 
 /-! ### who hears a firing -/
 
